@@ -147,10 +147,8 @@ def clear_all():
             c.cache_clear()
         except Exception:
             pass
-    try:
-        clear_caches()
-    except Exception:
-        pass
+    # (harness.common.clear_caches() re-scans the package on every call — far too slow to run twice per step; the
+    #  discovery above is the same scan, done once per process)
     for d in _dict_caches():
         d.clear()
     Array._largest_values = None
@@ -820,7 +818,9 @@ def execute(line):
         pristine = {}
         call_idx = [i for i in range(len(ops)) if warm[i] is not None]
         if have_fresh and call_idx:
-            pick = {call_idx[(len(line) * 7919 + len(call_idx)) % len(call_idx)]}
+            pick = set()
+            if len(call_idx) >= 15:          # short histories: the per-option-state processes are nearly pristine already
+                pick.add(call_idx[(len(line) * 7919 + len(call_idx)) % len(call_idx)])
             if len(call_idx) > 100:
                 pick.add(call_idx[-1])
             # a call that RAISES after an earlier, different call sharing one of its tokens raised: the earlier failure
@@ -1905,7 +1905,7 @@ def gen(rng, tier):
             yield history(rng, 300, "mixed", 0.02, False)
             yield history(rng, 2000, "str", 0.01, False)
     # short random histories: many option assignments, small key pools (dense re-use)
-    for _ in range(1500 if big else 250):
+    for _ in range(1500 if big else 200):
         yield history(rng, rng.randint(8, 60), rng.choice(["str", "mixed", "str"]), rng.choice([0.1, 0.25, 0.4]), rng.random() < 0.3)
 
 
